@@ -76,8 +76,16 @@ func (l *Lines) reloadRange(from int, to int) {
 		from, to = to, from
 	}
 
+	// Blocks in the range can differ in length, so the lines where they (and
+	// the empty lines separating them) start have to be recalculated.
+	start := l.blockStarts[from]
 	for i := from; i <= to; i++ {
+		l.blockStarts[i] = start
 		l.Reload(i)
+
+		emptyLine := start + l.code.Index(i).Num() + 1
+		l.lines[emptyLine] = newEmptyLine()
+		start = emptyLine + 1
 	}
 }
 
